@@ -256,7 +256,7 @@ def save_load(p, res, where, name="c16.json", into=None):
     return p2
 
 
-CFG = gen.Cfg(onesided=2, servable=2, facilities=True, max_tasks=6, max_time=[40], abs_max=12, chain_components=True, due=True, org_tree=2, ids_flat=4,
+CFG = gen.Cfg(onesided=2, servable=2, facilities=True, max_tasks=6, max_time=[40], abs_max=12, chain_components=True, due=True, org_tree=2, ids_flat=4, float_mode=5,
               work_pool=[0.0, 0.5, 1.0, 1.0, 2.0, 3.0])
 # nested products only without workplaces here: backward_simulate reverses the dependencies, which turns the
 # assembly form around (parent tasks first) and leads into the nested-placement findings D-PLC2..4 of C13
@@ -309,6 +309,12 @@ def budget(tier):
 def check(case):
     verify_table()
     res = Result()
+    probed = S.probe_saved_settings()
+    lost = sorted(k for k, v in S.SAVED_SETTINGS.items() if v and not probed.get(k))
+    if lost:
+        names = {"wr": "worker_priority_rule", "fr": "facility_priority_rule", "wpr": "workplace_priority_rule", "mw": "main_workplace_id", "inputs": "input/output workplace links"}
+        res.fail("C16.saved_setting", "a setting that is part of the saved format does not survive write + read: %s" % ", ".join(names[k] for k in lost), sig=lost[0])
+        return res
     spec = case["spec"]
     opts = spec["opts"]
     h = S.build(spec)
